@@ -44,26 +44,26 @@ PROFILES = {
         "features": FLOW_INLINE | {"run.ins", "run.del", "run.comment-ref", "run.note-ref", "run.field", "para.heading", "list.flat", "list.nested", "table.simple",
                                    "table.multi-para-cell", "table.empty-cell", "excluded.header-footer", "excluded.comment", "unit.multi"},
         "table_text_in_full_text": True, "unit_kind": "page", "max_units": 3, "decoration": [], "residue_ignore": r"\b\d{1,3}\.",  # \\listtext numbering
-        "opts": {"u_words": [False, False, True], "spaced_cells": [True, True, False]},
+        "opts": {"u_words": [False, False, True], "spaced_cells": [True, True, False], "page_break": [False, False, "nested", "deep", "par-in-group"]},
     },
     "html": {
         "ext": "html", "render": lambda doc, **kw: simple.render_html(doc, **kw),
         "features": FLOW_INLINE | {"run.ins", "run.comment-ref", "container.sdt.inline", "para.heading", "list.flat", "list.nested", "table.simple", "table.multi-para-cell",
                                    "table.nested", "table.empty-cell", "table.header-rows", "container.section", "container.group", "excluded.header-footer", "excluded.comment"},
-        "table_text_in_full_text": True, "unit_kind": "single", "max_units": 1,
+        "table_text_in_full_text": True, "unit_kind": "single", "max_units": 1, "opts": {"inline_removed": [False, False, "script", "style", "noscript"]},
     },
     "mhtml": {
         "ext": "mhtml", "render": lambda doc, **kw: simple.render_mhtml(doc, **kw),
         "features": FLOW_INLINE | {"run.ins", "para.heading", "list.flat", "list.nested", "table.simple", "table.multi-para-cell", "table.empty-cell", "container.section",
                                    "excluded.header-footer"},
-        "table_text_in_full_text": True, "unit_kind": "single", "max_units": 1,
+        "table_text_in_full_text": True, "unit_kind": "single", "max_units": 1, "opts": {"inline_removed": [False, False, "script", "style", "noscript"]},
     },
     "epub": {
         "ext": "epub", "render": lambda doc, **kw: simple.render_epub(doc, **kw),
         "features": FLOW_INLINE | {"run.ins", "run.comment-ref", "para.heading", "list.flat", "list.nested", "table.simple", "table.multi-para-cell", "table.empty-cell",
                                    "table.header-rows", "container.section", "excluded.comment", "unit.multi", "unit.empty"},
         "table_text_in_full_text": False, "unit_kind": "chapter", "max_units": 4, "unit_names": "Chapter ",
-        "opts": {"manifest_reversed": [False, True]},
+        "opts": {"manifest_reversed": [False, True], "inline_removed": [False, False, "script", "style", "noscript"], "selfclose_empty_cells": [False, True]},
     },
     "txt": {"sep_any": True, "ext": "txt", "render": lambda doc, **kw: simple.render_txt(doc, **kw), "features": {"run.multi", "run.tab", "run.break", "para.heading", "list.flat", "list.nested", "table.simple"},
             "table_text_in_full_text": True, "unit_kind": "single", "max_units": 1},
@@ -80,7 +80,7 @@ PROFILES = {
     "eml": {"ext": "eml", "render": lambda doc, **kw: simple.render_eml(doc, **kw), "features": {"run.multi", "run.break", "list.flat", "table.simple"},
             "table_text_in_full_text": True, "unit_kind": "message", "max_units": 1},
     "mbox": {"ext": "mbox", "render": lambda doc, **kw: simple.render_mbox(doc, **kw), "features": {"run.multi", "run.break", "list.flat", "table.simple", "unit.multi"},
-             "table_text_in_full_text": True, "unit_kind": "message", "max_units": 3},
+             "table_text_in_full_text": True, "unit_kind": "message", "max_units": 3, "opts": {"crlf": [False, True]}},
     "ppt": {"ext": "ppt", "render": lambda doc, **kw: legacy.render_ppt(doc, **kw),
             "features": {"run.multi", "run.break", "para.heading", "list.flat", "unit.multi", "unit.empty", "excluded.speaker-notes"},
             "table_text_in_full_text": True, "unit_kind": "slide", "max_units": 4, "opts": {"codepage": [65001, 65001, 1252, 1200], "text_placement": ["both", "both", "outline"]}},
